@@ -76,6 +76,9 @@ CallEventVerdict(c, e) ==
   IF v1 # "ok" THEN v1
   ELSE IF e.hasfresh /\ e.fresh.raised # e.raised THEN "exception_differs_from_fresh_algebra"
   ELSE IF e.hasfresh /\ e.raised = "" /\ ~MR!SameElement(res, DecodeMV(c, e.ring, e.fresh.res)) THEN "value_differs_from_fresh_algebra"
+  \* the same call with the same operands is the same computation: also the STORED blades agree (a result that keeps
+  \* blades a fresh algebra drops -- or the reverse -- depends on the history)
+  ELSE IF e.hasfresh /\ e.raised = "" /\ e.res.keys # e.fresh.res.keys THEN "stored_blades_differ_from_fresh_algebra"
   ELSE IF \E i \in DOMAIN e.before : ~SameStored(e.before[i], e.after[i]) THEN "operand_or_earlier_result_was_modified"
   ELSE "ok"
 
@@ -174,8 +177,11 @@ GetItemVerdict(e) ==
   ELSE "ok"
 
 \* x[idx] = v: exactly the addressed entries of every coefficient change, to the assigned values
+\* mode "mv_perm": the assigned multivector stores the SAME blades in another order; the assignment is by blade
+\* (e.assigned is listed per blade of the target).  The library may refuse it (any exception) -- then nothing may
+\* have been written -- but if it accepts it the values must land on their own blades.
 SetItemVerdict(e) ==
-  IF e.raised # "" THEN "setitem_raised"
+  IF e.raised # "" THEN (IF e.mode = "mv_perm" THEN (IF e.after = e.before THEN "ok" ELSE "refused_setitem_wrote_something") ELSE "setitem_raised")
   ELSE IF e.after.keys # e.before.keys THEN "setitem_changed_the_keys"
   ELSE IF \E k \in DOMAIN e.before.flat : \E j \in DOMAIN e.before.flat[k] :
             LET hits == {p \in DOMAIN e.pos : e.pos[p] + 1 = j} IN
